@@ -91,6 +91,10 @@ type World struct {
 
 	Ext interface{} // F-world extension
 
+	// Inj is the fault injector (nil unless installed); LastFault is the site failed in the last provider block.
+	Inj       *Injector
+	LastFault string
+
 	// LastRecv lists the packets received (acknowledgement written) in the last produced block, in execution order.
 	LastRecv []*PacketRec
 
@@ -355,6 +359,12 @@ func (w *World) Apply(a Action) *StepResult {
 		return w.consumerBlock(ap)
 	case a.Kind == KProviderDS:
 		return w.queueProviderDoubleSign(ap)
+	case a.Kind == KInject:
+		if w.Inj == nil || a.Fault == nil {
+			return &StepResult{Skipped: "no fault injector installed"}
+		}
+		w.Inj.Armed, w.Inj.Site, w.Inj.Nth = true, a.Fault.Site, a.Fault.Nth
+		return &StepResult{}
 	case a.Sender == "gov":
 		return w.govSubmit(ap, idx)
 	}
@@ -399,7 +409,23 @@ func (w *World) providerBlock(a *Action) *StepResult {
 	w.pendingDS = nil
 	w.Now = w.Now.Add(dt)
 	dt = w.Now.Sub(w.P.Time)
+	if w.Inj != nil {
+		w.Inj.Counts = map[string]int{}
+		w.Inj.Hit = ""
+		w.Inj.Record = true
+	}
 	br := w.P.ProduceBlock(dt, sim.Votes{Absent: absent}, mis)
+	w.LastFault = ""
+	if w.Inj != nil {
+		w.LastFault = w.Inj.Hit
+		w.Inj.Armed, w.Inj.Record = false, false
+		if w.LastFault != "" {
+			w.Label("fault:" + w.LastFault)
+		}
+		for site := range w.Inj.Counts {
+			w.Label("site-reached:" + site)
+		}
+	}
 	res := &StepResult{Block: br, Chain: "provider"}
 	q := w.queued
 	w.queued = nil
